@@ -210,7 +210,10 @@ Definition run_op (sy : system) (o : json) (now : Z) : system * json :=
   | None => (sy, JObj [("class", JStr "unknown-op"); ("ok", JBool false)])
   | Some op =>
       let '(sy', r) := sys_step sy (jfS "loc" o) (dec_ctx o) (dec_env o now) op in
-      (sy', render sy' op r)
+      (* the facts of a search result are read in the state BEFORE the operation: a live
+         dependent of an expired item is returned by the search that meets the expired item
+         and removed by the purge that ends it (repair of D52) *)
+      (sy', render sy op r)
   end.
 
 Definition sys_amb (sy : system) : bool := existsb (fun kv => st_amb (l_state (snd kv))) sy.
@@ -221,7 +224,7 @@ Definition as_linear (sy : system) : system :=
   map (fun kv => let s := l_state (snd kv) in
                  (fst kv, upd_state (snd kv)
                             (mkState Linear (st_facts s) (st_tindex s) (st_pindex s) (st_store s)
-                                     (st_hooks s) (st_calls s) (st_fail s) false))) sy.
+                                     (st_hooks s) (st_calls s) (st_fail s) false (st_pending s)))) sy.
 
 Definition any_expired_l (l : loc) (now : Z) : bool :=
   existsb (fun kv => fact_expired (snd kv) now) (st_facts (l_state l)).
